@@ -425,6 +425,21 @@ class Airplane:
             if not found_dependent:
                 seg_names.append(key)
 
+        # A segment placed in front of its dependents may have landed in front of the segment it connects to itself; move it behind that one
+        for _ in range(len(seg_names)**2):
+            moved = False
+            for i, seg_name in enumerate(seg_names):
+                parent_ID = wing_dict[seg_name].get("connect_to", {}).get("ID", 0)
+                for j in range(i+1, len(seg_names)):
+                    if wing_dict[seg_names[j]]["ID"] == parent_ID:
+                        seg_names.insert(j, seg_names.pop(i))
+                        moved = True
+                        break
+                if moved:
+                    break
+            if not moved:
+                break
+
         # Add segments
         for seg_name in seg_names:
             self.add_wing_segment(seg_name, self._input_dict["wings"][seg_name], recalculate_geometry=False)
